@@ -1,6 +1,7 @@
 package main
 
 import (
+	"go/token"
 	"fmt"
 	"go/constant"
 	"go/types"
@@ -979,6 +980,22 @@ func (ex *Executor) evalCallSpec(e *SExpr, env *SpecEnv) (Val, error) {
 		return specInt(App("slicecontent", SInt, Select(earr, ex.sarr(a.T)), ex.soff(a.T), ex.slen(a.T))), nil
 	case "cancelled":
 		return specBool(Bool(env.st.cancelled)), nil
+	case "bitand":
+		// a & b, modelled exactly as the executor models the Go operator (per bit for narrow unsigned types with a
+		// constant operand, an uninterpreted function otherwise)
+		a, err := argv(0)
+		if err != nil {
+			return Val{}, err
+		}
+		b, err := argv(1)
+		if err != nil {
+			return Val{}, err
+		}
+		ty := a.Ty
+		if ty == nil || !isInteger(ty) {
+			ty = types.Typ[types.Uint64]
+		}
+		return Val{T: ex.bitop(env.st, token.AND, a.T, b.T, ty), Ty: ty}, nil
 	case "strlen":
 		a, err := argv(0)
 		if err != nil {
